@@ -3,6 +3,7 @@ package main
 // Server-side rules: C18-SOURCES, C20 (T10, C20-TREE, C20-ONCE), C09 (H-PRIMARY, T11, C12-PAIR).
 
 import (
+	"os"
 	"sort"
 	"go/constant"
 	"fmt"
@@ -2058,6 +2059,43 @@ func balanceAddSites(c *Ctx, f *ssa.Function) []balanceAddSite {
 					if (isNilCmp(bo.X, bo.Y) || isNilCmp(bo.Y, bo.X)) && ((bo.Op == token.NEQ && cc.Taken) || (bo.Op == token.EQL && !cc.Taken)) {
 						guarded = true
 					}
+				}
+				// the amount is a parameter of a helper: the nil test sits at the helper's call sites
+				if prm, isParam := amountPtr.(*ssa.Parameter); isParam && !guarded {
+					idx := -1
+					for i, q := range g.Params {
+						if q == prm {
+							idx = i
+						}
+					}
+					sites := (cgView{c}).callersOf(g)
+					all := len(sites) > 0 && idx >= 0
+					if os.Getenv("HLDEBUG") == "t10" {
+						fmt.Fprintf(os.Stderr, "T10 helper %s idx=%d sites=%d\n", funcName(g), idx, len(sites))
+					}
+					for _, site := range sites {
+						okSite := false
+						if idx < len(site.Common().Args) {
+							arg := site.Common().Args[idx]
+							for _, cc := range controlCondsPol(site.Block()) {
+								bo, ok := cc.Cond.(*ssa.BinOp)
+								if !ok {
+									continue
+								}
+								isNil := func(x, y ssa.Value) bool {
+									k, isK := y.(*ssa.Const)
+									return isK && k.IsNil() && (x == arg || sameLoad(x, arg))
+								}
+								if (isNil(bo.X, bo.Y) || isNil(bo.Y, bo.X)) && ((bo.Op == token.NEQ && cc.Taken) || (bo.Op == token.EQL && !cc.Taken)) {
+									okSite = true
+								}
+							}
+						}
+						if !okSite {
+							all = false
+						}
+					}
+					guarded = all
 				}
 				// where the sum goes: the map update that stores the result, its keys as access paths of the posting
 				cg := cgView{c}
